@@ -510,3 +510,14 @@ Proof.
   destruct (expand_with cfg sn abbr) as [x|k pos|k|]; cbn [safe_on expand_outcome_ok] in *; try assumption.
   congruence.
 Qed.
+
+(* combined forms used by props/C07Css.v *)
+Lemma expand_with_safe_and_fuel cfg sn abbr :
+  safe_on (length abbr) (expand_with cfg sn abbr) /\ expand_with cfg sn abbr <> OutOfFuel.
+Proof. split; [apply expand_with_safe|apply expand_with_fuel]. Qed.
+
+Lemma parser_safe_and_fuel vm ts : good_final ts (parser vm ts) /\ parser vm ts <> OutOfFuel.
+Proof. split; [apply parser_safe|apply parser_fuel_suffices]. Qed.
+
+Lemma css_parse_safe_and_fuel vm s : safe_on (length s) (css_parse vm s) /\ css_parse vm s <> OutOfFuel.
+Proof. split; [apply css_parse_safe|apply css_parse_fuel]. Qed.
